@@ -62,14 +62,16 @@ Definition chk_c07 (e : entry) (files : list ast) (impl : sx) (tables : list opt
   let t := obs_optable (impl_payload impl) in
   [b2n (outcome_agree m impl); b2n (class_agree m impl);
    b2n (if accepted_sx impl then spec_c07 files t else true);
-   b2n (if accepted_sx impl then forallb (fun b => same_table N.eqb b t) tables else true)].
+   b2n (if accepted_sx impl then forallb (fun b => same_table N.eqb b t) tables else true);
+   b2n (if accepted_sx impl then spec_names_unique t else true)].
 
 Definition chk_c08 (e : entry) (files : list ast) (impl : sx) (tables : list errtable) : list N :=
   let m := model_front e files in
   let t := obs_errtable (impl_payload impl) in
   [b2n (outcome_agree m impl); b2n (class_agree m impl);
    b2n (if accepted_sx impl then spec_c08 files t else true);
-   b2n (if accepted_sx impl then forallb (fun b => same_table Z.eqb b t) tables else true)].
+   b2n (if accepted_sx impl then forallb (fun b => same_table Z.eqb b t) tables else true);
+   b2n (if accepted_sx impl then spec_names_unique t else true)].
 
 (* diagnostics: the model's own observation, printed when a case disagrees *)
 Definition show_model (e : entry) (files : list ast) : sx := model_front e files.
